@@ -112,9 +112,18 @@ def check(impl, mstate, born, out, where):
             if born.get(('src', sid)):
                 if str(s.source_addr) != M.SOURCE[sid][0] or s.source_port != M.SOURCE[sid][1]:
                     out.append(('stream-source', 'addr-port', '%s: stream %d source %r:%r' % (where, sid, s.source_addr, s.source_port)))
+        if born.get(sid) == 'snapshot' and born.get(('snap-target', sid)):
+            # first seen in the stream-status snapshot: the target is what that line said, whatever the stream's status was
+            th, tp = born[('snap-target', sid)].rsplit(':', 1)
+            if s.target_host != th or int(s.target_port or 0) != int(tp):
+                out.append(('stream-target', 'snapshot-born/%s' % born.get(('snap-state', sid)),
+                            '%s: stream %d (listed by stream-status as %s) target %r:%r, the snapshot said %s:%s'
+                            % (where, sid, born.get(('snap-state', sid)), s.target_host, s.target_port, th, tp)))
         if ms.remapped and born.get(('remap', sid)):
-            if str(s.target_addr) != M.REMAP_IP[sid]:
-                out.append(('stream-remap', 'target_addr', '%s: stream %d target_addr %r, remapped to %s' % (where, sid, s.target_addr, M.REMAP_IP[sid])))
+            want_ip = M.remap_ip(sid, int(ms.remapped))
+            if str(s.target_addr) != want_ip:
+                out.append(('stream-remap', 'target_addr' if int(ms.remapped) == 1 else 'target_addr/second-remap',
+                            '%s: stream %d target_addr %r, (last) remapped to %s' % (where, sid, s.target_addr, want_ip)))
         # which circuit is it on?
         want = ms.circ
         got = s.circuit.id if s.circuit is not None else 0
@@ -190,6 +199,16 @@ def born_after(born, label):
     return b
 
 
+def snapshot_born(mstate):
+    born = {}
+    for sid in M.live_streams(mstate):
+        v = mstate[1][sid]
+        born[sid] = 'snapshot'
+        born[('snap-target', sid)] = M.tgt(sid, v.remapped)
+        born[('snap-state', sid)] = v.state
+    return born
+
+
 def run_state(idx, mode, acc):
     mstate, path = reach()[idx]
     results = []
@@ -206,7 +225,7 @@ def run_state(idx, mode, acc):
             where = 'after events %s' % '/'.join(p[0] for p in path[-4:])
         else:
             impl = Impl(w, M.snapshot(mstate))
-            born = dict((sid, 'snapshot') for sid in M.live_streams(mstate))
+            born = snapshot_born(mstate)
             where = 'after snapshot of state #%d' % idx
         if impl.boot != ['ok']:
             viol.append(('bootstrap', mode, '%s: TorState bootstrap did not complete: %r' % (where, impl.boot)))
@@ -230,7 +249,7 @@ def run_state(idx, mode, acc):
                     born = born_after(born, l2)
             else:
                 impl = Impl(w, M.snapshot(mstate))
-                born = dict((sid, 'snapshot') for sid in M.live_streams(mstate))
+                born = snapshot_born(mstate)
             w.trap.errors[:] = []
             impl.event(ev, line)
             born = born_after(born, label)
